@@ -46,9 +46,10 @@ PY = sys.executable
 INVS = ["TypeOK", "WorkerBound", "ExactlyOnce", "OrderPreserved", "Reproducible", "SeedsBeforeDispatch", "RngOK", "Progress"]
 MIXINVS = ["MixTypeOK", "WorkerBound", "ExactlyOnce", "MixOrderPreserved", "MixReproducible", "AnalyticSeedFree", "SeedsBeforeDispatch",
            "RngOK", "MixProgress"]
-# variant -> (constants in which TLC must reject it, constants in which it must pass): the boundary of the input class
-MIXBUGS = {"seed-iff-first-finite": (dict(tasks=range(0, 4), filt="any", rounds=2), dict(tasks=range(0, 4), filt="first-finite", rounds=2)),
-           "collect-by-text-id": (dict(tasks=[11, 12], filt="all-finite", rounds=1), dict(tasks=[9, 10], filt="all-finite", rounds=1))}
+# variant -> (constants, invariant that must HOLD: the property fails only inside the input class); the CONSTRAINT Rejected must
+# report finished behaviours that violate the property
+MIXBUGS = {"seed-iff-first-finite": (dict(tasks=range(0, 4), filt="any", rounds=2), "BoundarySeeds"),
+           "collect-by-text-id": (dict(tasks=[9, 10, 11, 12], filt="all-finite", rounds=1), "BoundaryLarge")}
 BUGS = {"shared-rng": True, "draw-at-dispatch": False, "collect-as-completed": True}      # bug -> Fifo used to expose it
 
 
@@ -75,9 +76,7 @@ def tlc_models(tier, n, wcounts, mixw, bign, bigw, simseed):
                                        lib.workdir("C31", "mix_sim"), timeout=1500, workers=1, simulate=f"num={140 if quick else 900}", seed=simseed, depth=400),
         "mix_small": lambda: lib.run_tlc("ExecutorMix", mix_cfg(mix_consts(range(0, nm + 1), [1, 2, 3], True, rounds=2, allupto=nm, chunks=both), MIXINVS),
                                          lib.workdir("C31", "mix_small"), timeout=1500, workers=SMALL),
-        "mix_any": lambda: lib.run_tlc("ExecutorMix", mix_cfg(mix_consts(range(0, nm), [1, 2, 3], False, rounds=2, allupto=nm), MIXINVS),
-                                       lib.workdir("C31", "mix_any"), timeout=1500, workers=SMALL),
-        "mix_big": lambda: lib.run_tlc("ExecutorMix", mix_cfg(mix_consts([11, 12] if quick else [10, 11, 12, 13, 17], [2] if quick else [2, 3], True,
+        "mix_big": lambda: lib.run_tlc("ExecutorMix", mix_cfg(mix_consts([12] if quick else [10, 11, 12, 13, 17], [2] if quick else [2, 3], True,
                                                                          allupto=nm, chunks=both), MIXINVS[:-1], action_constraints=["SubmitFirst"]),
                                        lib.workdir("C31", "mix_big"), timeout=1500, workers=SMALL if quick else None),
         "gen": lambda: lib.run_tlc("ExecutorGen", lib.cfg(constants=model_consts([n], wcounts, True, device=True, rounds=1),
@@ -89,27 +88,28 @@ def tlc_models(tier, n, wcounts, mixw, bign, bigw, simseed):
                                                                                  seeds="{0,5}"), invariants=INVS),
                                       lib.workdir("C31", "mc_any"), timeout=1500, workers=SMALL),
     }
+    if not quick:
+        jobs["mix_any"] = lambda: lib.run_tlc("ExecutorMix", mix_cfg(mix_consts(range(0, nm), [1, 2, 3], False, rounds=2, allupto=nm), MIXINVS),
+                                              lib.workdir("C31", "mix_any"), timeout=1500, workers=SMALL)
     for bug, fifo in BUGS.items():
         jobs["bug:" + bug] = (lambda bug=bug, fifo=fifo: lib.run_tlc("Executor", lib.cfg(constants=model_consts(
             [3], [2], fifo, bug=bug, device=True, rounds=2, seeds="{5}"), invariants=["OrderPreserved", "Reproducible"]),
             lib.workdir("C31", "bug_" + bug), timeout=600, workers=2))
-    for bug, (bad, good) in MIXBUGS.items():
-        for tag, kw in (("bad", bad), ("good", good)):
-            jobs[f"mixbug:{bug}:{tag}"] = (lambda bug=bug, kw=kw, tag=tag: lib.run_tlc("ExecutorMix", mix_cfg(
-                mix_consts(kw["tasks"], [2], True, rounds=kw["rounds"], filt=kw["filt"], bug=bug), ["MixOrderPreserved", "MixReproducible"],
-                action_constraints=["SubmitFirst"]), lib.workdir("C31", f"mixbug_{bug}_{tag}"), timeout=600, workers=2))
+    for bug, (kw, boundary) in MIXBUGS.items():
+        jobs[f"mixbug:{bug}"] = (lambda bug=bug, kw=kw, boundary=boundary: lib.run_tlc("ExecutorMix", mix_cfg(
+            mix_consts(kw["tasks"], [2], True, rounds=kw["rounds"], filt=kw["filt"], bug=bug), [boundary], constraints=["Rejected"],
+            action_constraints=["SubmitFirst"]), lib.workdir("C31", f"mixbug_{bug}"), timeout=600, workers=2))
     with cf.ThreadPoolExecutor(8) as tp:
         futs = {k: tp.submit(f) for k, f in jobs.items()}
         res = {k: f.result() for k, f in futs.items()}
-    for k in ("gen", "mc_fifo", "mc_any", "mix_gen", "mix_sim", "mix_small", "mix_any", "mix_big"):
-        lib.require_ok(res[k], f"C31 model {k}")
+    for k in [k for k in jobs if not k.startswith("bug:")]:
+        lib.require_ok(res[k], f"C31 model {k}")          # for the batch-layer variants: the property fails only inside the input class
     rejected = {}
-    for bug in MIXBUGS:
-        r, g = res[f"mixbug:{bug}:bad"], res[f"mixbug:{bug}:good"]
-        if r.invariant_violated not in ("MixOrderPreserved", "MixReproducible"):
-            raise MachineryError(f"model-level negative control: batch-layer variant {bug} not rejected ({r.invariant_violated}, {r.error})")
-        lib.require_ok(g, f"C31 batch-layer variant {bug} on the inputs on which it is correct")
-        rejected[bug] = r.invariant_violated
+    for bug, (kw, boundary) in MIXBUGS.items():
+        rej = sorted({t[2] for t in res[f"mixbug:{bug}"].tuples if list(t[:2]) == ["V", "rejected"]})
+        if not rej:
+            raise MachineryError(f"model-level negative control: batch-layer variant {bug} not rejected on batches of {list(kw['tasks'])}")
+        rejected[bug] = f"MixReproducible on batches of {rej} circuits, {boundary} holds"
     for bug in BUGS:
         r = res["bug:" + bug]
         if r.invariant_violated not in ("OrderPreserved", "Reproducible"):
@@ -188,7 +188,7 @@ def plan_batch(tier):
     if tier == "quick":
         mix = [("cf_threadpool", 2, 2), ("cf_threadpool", 4, 2), ("serial", 1, 2), ("cf_threadpool", 1, 2), (None, None, 2)]
         mixproc = []
-        big = [("mp_pool", 2, 12, 1, 2), ("cf_procpool", 2, 12, 1, 2), ("cf_threadpool", 2, 11, 2, 2), ("cf_threadpool", 4, 13, 2, 2),
+        big = [("mp_pool", 2, 12, 1, 1), ("cf_procpool", 2, 12, 1, 1), ("cf_threadpool", 2, 11, 2, 2), ("cf_threadpool", 4, 13, 2, 2),
                (None, None, 12, 1, 2), ("serial", 1, 12, 1, 2)]
     else:
         mix = [("cf_threadpool", 2, 3), ("cf_threadpool", 4, 2), ("serial", 1, 2), ("cf_threadpool", 1, 2), (None, None, 2), ("cf_threadpool", 8, 2),
@@ -287,7 +287,7 @@ def _run(tier, rng, procs, proc, thr, seeds, n, t0, seed):
     for k, (be, w, nd) in enumerate(mixproc):
         m0 = reps[(k * 3 + 1) % len(reps)]
         ms = (m0, tuple(1 - b for b in m0))
-        add_group("mix", be, w, seeds[0], 2, nd, n, lambda r, w=w, ms=ms: mixsched[(ms[r], min(w or 1, n))], masks=[list(x) for x in ms], wait=20)
+        add_group("mix", be, w, seeds[0], 2, nd, n, lambda r, w=w, ms=ms: mixsched[(ms[r], min(w or 1, n))], masks=[list(x) for x in ms], wait=60)
     # large batches: composition and completion orders from TLC's simulated behaviours of (n, w, chunked or not)
     for k, (be, w, nb, rounds, nd) in enumerate(big):
         lines = bigsched.get((nb, w or 1), [])
@@ -296,7 +296,7 @@ def _run(tier, rng, procs, proc, thr, seeds, n, t0, seed):
         if not lines:
             raise MachineryError(f"no simulated TLC behaviour for a batch of {nb} on {w} workers ({be})")
         ms = [lines[(k + 7 * r) % len(lines)]["m"] for r in range(rounds)]
-        add_group("big", be, w, seeds[0], rounds, nd, nb, lambda r, lines=lines: [j["c"] for j in lines], masks=ms, wait=20, chunk=lines[0]["k"])
+        add_group("big", be, w, seeds[0], rounds, nd, nb, lambda r, lines=lines: [j["c"] for j in lines], masks=ms, wait=60 if be in PROC else 20, chunk=lines[0]["k"])
 
     if tier == "thorough":
         # process-pool drivers in waves of 6 (each spawns up to 8 workers that import pennylane)
@@ -459,9 +459,9 @@ def _run(tier, rng, procs, proc, thr, seeds, n, t0, seed):
                      "states_any_dispatch_2rounds": res["mc_any"].distinct, "invariants": INVS, "bug_variants_rejected": rejected,
                      "batch_layer": {"module": "ExecutorMix", "invariants": MIXINVS,
                                      "states_all_compositions_fifo_2rounds": res["mix_small"].distinct,
-                                     "states_all_compositions_any_dispatch_2rounds": res["mix_any"].distinct,
+                                     "states_all_compositions_any_dispatch_2rounds": res["mix_any"].distinct if "mix_any" in res else "thorough tier",
                                      "states_large_batches": res["mix_big"].distinct,
-                                     "variants_accepted_on_restricted_inputs": sorted(MIXBUGS)}},
+                                     "variants_violate_only_inside_input_class": {b: v[1] for b, v in MIXBUGS.items()}}},
            "configurations": [{"family": g["family"], "backend": g["backend"], "max_workers": g["w"], "seed": g["seed"], "batch": g["n"],
                                "shots_pattern_per_execution": [fa(m) for m in g["masks"]] if g["masks"] else "fixed", "devices": len(g["members"]),
                                "executions_each": g["rounds"]} for g in groups],
